@@ -85,6 +85,26 @@ func (c *Ctx) condAndCallBags(fn *ssa.Function) (conds, calls map[string]int) {
 				if flo > split {
 					split = flo
 				}
+				// a test on the tail rules[c:] is a test on the list itself: len(rules[c:]) >= k  <=>  len(rules) >= k+c
+				for d := 0; d < 4; d++ {
+					sl, isSl := x.Origin(arg).(*ssa.Slice)
+					if !isSl || sl.High != nil || sl.Max != nil {
+						break
+					}
+					if _, isS := sl.X.Type().Underlying().(*types.Slice); !isS {
+						break
+					}
+					lo := int64(0)
+					if sl.Low != nil {
+						k, isK := constInt(sl.Low)
+						if !isK || k < 0 {
+							break
+						}
+						lo = k
+					}
+					arg = sl.X
+					split += lo
+				}
 				conds[fmt.Sprintf("len(%s) >= %d", dT(arg), split)]++
 			} else if subj, _, ok := nilCheck(cond); ok {
 				conds["nil? "+dT(subj)]++
